@@ -9,6 +9,7 @@ LIT = {"plain": "'abc'", "semi": "'a;b'", "dash": "'a--b'", "block": "'a/*b*/c'"
 VAL = {"plain": "abc", "semi": "a;b", "dash": "a--b", "block": "a/*b*/c", "quote": "it's", "bslash": "a\\b",
        "uni": "é😀", "dollar": "a'b;c", "nl": "a\nb", "callx": "call x", "granty": "grant y"}
 OK_STATUS = [("Statement executed successfully.",)]
+ALLNOP = {"call", "call_ws", "call_upper", "grant", "ins_callx", "ins_granty", "sel_grantz"}
 
 
 def stmt_sql(it):
@@ -19,6 +20,10 @@ def stmt_sql(it):
         return "select count(*) as c from t"
     if k == "fail":
         return "select * from no_such_table"
+    if k == "cmton":
+        return "comment on table t is 'c1'"
+    if k == "cmtset":
+        return "alter table t set comment = 'c2'"
     raise ValueError(k)
 
 
@@ -39,7 +44,7 @@ def render(items, rng):
         else:
             out.append(rng.choice(["", "  ", "\n"]) + stmt_sql(it) + rng.choice([";", " ;", ";\n", ";  "]))
     text = "".join(out)
-    if items and items[-1]["k"] in ("ins", "sel", "fail") and rng.random() < 0.3:
+    if items and items[-1]["k"] in ("ins", "sel", "fail", "cmton", "cmtset") and rng.random() < 0.3:
         text = text.rstrip().rstrip(";")  # the last statement may come without its semicolon
     return text
 
@@ -71,22 +76,26 @@ class C16(Prop):
     ]
 
     def consts(self, tier):
-        return {"MaxItems": 3, "PayloadsUsed": set(PL[:9])}
+        return {"MaxItems": 3, "PayloadsUsed": set(PL[:9]), "DataScripts": True, "NopUsed": ALLNOP}
 
     def model_checks(self, tier):
-        c = {"MaxItems": 3 if tier == "thorough" else 2, "PayloadsUsed": {"plain", "semi", "dollar"}, "Devs": set(), "Depth": 4,
+        c = {"MaxItems": 3 if tier == "thorough" else 2, "PayloadsUsed": {"plain", "semi", "dollar"}, "DataScripts": True, "NopUsed": ALLNOP, "Devs": set(), "Depth": 4,
              "MaxFails": 0, "SampleOneIn": 1}
         return [dict(name="mc_ideal", consts=c, invariants=["StepInv"], constraint="Bound", view="ViewSt", timeout=1500)]
 
     def generations(self, tier, seed):
         big = tier == "thorough"
-        base = {"Devs": set(), "MaxFails": 0, "SampleOneIn": 1, "PayloadsUsed": set(PL[:9]), "MaxItems": 3}
+        base = {"Devs": set(), "MaxFails": 0, "SampleOneIn": 1, "PayloadsUsed": set(PL[:9]), "MaxItems": 3, "DataScripts": True, "NopUsed": ALLNOP}
         return [
+            # every sequence of comment statements and (no-op'd) statements: what a no-op'd statement must leave alone
+            dict(name="paths_cmt", mode="paths", consts=dict(base, DataScripts=False, NopUsed={"call", "ins_callx"}, MaxItems=1, Depth=6 if big else 5)),
             dict(name="edges2", mode="edges", sample=None if big else 2500, consts=dict(base, MaxItems=2, Depth=3)),
             dict(name="edges3", mode="edges", emit="EmitSample", sample=30000 if big else 3000, seed_offset=1,
-                 consts=dict(base, MaxItems=3, PayloadsUsed={"plain", "semi", "dash", "dollar", "bslash"}, Depth=3, SampleOneIn=2 if big else 10)),
+                 consts=dict(base, MaxItems=3, PayloadsUsed={"plain", "semi", "dash", "dollar", "bslash"} if big else {"semi", "dash", "dollar"}, Depth=3,
+                             SampleOneIn=2 if big else 10)),
             dict(name="edges1", mode="edges", consts=dict(base, MaxItems=1, Depth=3)),
-            dict(name="walks", mode="walks", depth=6, num=2000 if big else 400, consts=dict(base, MaxItems=2, Depth=6)),
+            dict(name="walks", mode="walks", depth=6, num=2000 if big else 300,
+                 consts=dict(base, MaxItems=2, PayloadsUsed=set(PL[:9]) if big else {"plain", "dash", "block", "dollar"}, Depth=6)),
         ]
 
     def nontrivial(self, ops):
@@ -108,9 +117,9 @@ class C16(Prop):
             k = op["k"]
             obs = {"res": "ok", "results": [], "n": -1}
             if k == "inst":
-                key = bool(op["nop"])
+                key = "set" if op["nop"] else "empty" if op.get("empty") else "none"
                 if key not in _FS:
-                    _FS[key] = fakesnow.instance.FakeSnow(nop_regexes=["^call", "grant "] if key else None)
+                    _FS[key] = fakesnow.instance.FakeSnow(nop_regexes={"set": ["^call", "grant "], "empty": [], "none": None}[key])
                 fs = _FS[key]
                 conn = fs.connect("DB1", sc)
                 raw = fs.duck_conn.cursor()
@@ -121,12 +130,15 @@ class C16(Prop):
                 def result(it, cur):
                     rows = cur.fetchall()
                     v = list(rows[0].values())[0] if op["cc"] == "dict" else rows[0][0]
+                    if it["k"] in ("cmton", "cmtset"):
+                        return -1 if len(rows) == 1 and isinstance(v, str) else -8
                     return int(v)
 
-                stmts = [it for it in op["items"] if it["k"] in ("ins", "sel", "fail")]
+                stmts = [it for it in op["items"] if it["k"] in ("ins", "sel", "fail", "cmton", "cmtset")]
+                kw = {"remove_comments": True} if op.get("rc") else {}
                 try:
                     if op["via"] == "string":
-                        curs = list(conn.execute_string(render(op["items"], rng), cursor_class=cc))
+                        curs = list(conn.execute_string(render(op["items"], rng), cursor_class=cc, **kw))
                         obs["n"] = len(curs)
                         obs["results"] = [result(it, c) for it, c in zip(stmts, curs)] if len(curs) == len(stmts) else [-7]
                     else:
@@ -155,6 +167,11 @@ class C16(Prop):
                 except Exception:
                     obs["res"] = "err"      # statements the engine cannot parse: failing is all the spec asks
             obs["t"] = table_bag(raw, fq)
+            try:
+                cm = conn.cursor().execute(f"select comment from information_schema.tables where table_schema = '{sc}' and table_name = 'T'").fetchall()
+                obs["cmt"] = (cm[0][0] or "") if len(cm) == 1 else f"rows={len(cm)}"
+            except Exception as e:
+                obs["cmt"] = "exc:" + type(e).__name__
             ev.append({"op": op, "obs": obs})
         if raw is not None:
             raw.execute(f"drop schema if exists DB1.{sc} cascade")
